@@ -864,6 +864,107 @@ Proof.
     intros H; unfold enc_prim; cbn [int_kind]; now rewrite H.
 Qed.
 
+(* ---- rejection at the level of whole values: "too long" only if some component is over-long ------ *)
+Fixpoint overlong_fields (g : ty -> val -> bool) (ts : list ty) (vs : list val) : bool :=
+  match ts, vs with
+  | t :: ts', v :: vs' => g t v || overlong_fields g ts' vs'
+  | _, _ => false
+  end.
+
+Fixpoint has_overlong (f : nat) (o : opts) (t : ty) (v : val) {struct f} : bool :=
+  match f with
+  | O => false
+  | S f' =>
+    let lst t' := match v with VList l => existsb (has_overlong f' o t') l | _ => false end in
+    let mp tk tv := match v with
+                    | VMap l => existsb (fun kv => has_overlong f' o tk (fst kv) || has_overlong f' o tv (snd kv)) l
+                    | _ => false end in
+    match t with
+    | TPrim p => prim_overlong p v
+    | TAny => match v with VAny t' v' => has_overlong f' o t' v' | _ => false end
+    | TSlice t' | TArray _ t' => lst t'
+    | TMap tk tv => mp tk tv
+    | TReg name =>
+      match lookup_reg o name with
+      | Some (RPrim p) => prim_overlong p v
+      | Some (RStruct fs) => match v with VList l => overlong_fields (has_overlong f' o) fs l | _ => false end
+      | Some (RSlice t') | Some (RArray _ t') => lst t'
+      | Some (RMap tk tv) => mp tk tv
+      | None => false
+      end
+    end
+  end.
+
+Lemma bind_err {A B} (r : res A) (k : A -> res B) e :
+  bind r k = Err e -> r = Err e \/ exists a, r = Ok a /\ k a = Err e.
+Proof. destruct r as [a|e']; cbn [bind]; intros H; [right; eauto | left; congruence]. Qed.
+
+Lemma enc_all_toolong {A} (e : enc A) l :
+  enc_all e l = Err ETooLong -> exists a, In a l /\ e a = Err ETooLong.
+Proof.
+  induction l as [|a l IH]; cbn [enc_all]; [discriminate|]. intros H.
+  apply bind_err in H as [H|(x & Hx & H)]; [exists a; split; [now left|exact H]|].
+  apply bind_err in H as [H|(y & Hy & H)]; [|discriminate].
+  destruct (IH H) as (b & Hin & Hb). exists b. split; [now right|exact Hb].
+Qed.
+
+Lemma enc_fields_toolong (g : ty -> val -> res bytes) (G : ty -> val -> bool) fs :
+  (forall t v, g t v = Err ETooLong -> G t v = true) ->
+  forall l, enc_fields g fs l = Err ETooLong -> overlong_fields G fs l = true.
+Proof.
+  intros HG. induction fs as [|t fs IH]; intros l H; [destruct l; discriminate|].
+  destruct l as [|v l]; [discriminate|]. cbn [enc_fields overlong_fields] in *.
+  apply bind_err in H as [H|(x & Hx & H)]; [rewrite (HG _ _ H); reflexivity|].
+  apply bind_err in H as [H|(y & Hy & H)]; [|discriminate].
+  rewrite (IH _ H). apply orb_true_r.
+Qed.
+
+Lemma rejects_only_overlong_val o : forall f t v et,
+  enc_val f o et t v = Err ETooLong -> has_overlong f o t v = true.
+Proof.
+  induction f as [|f IH]; intros t v et He; [discriminate|].
+  cbn [enc_val] in He. cbn [has_overlong].
+  assert (LST : forall t' l, enc_all (enc_val f o false t') l = Err ETooLong ->
+                        existsb (has_overlong f o t') l = true).
+  { intros t' l H. apply enc_all_toolong in H as (a & Hin & Ha). apply existsb_exists. exists a. split; [exact Hin|].
+    eapply IH; eauto. }
+  assert (MP : forall tk tv l, enc_all (enc_pair (enc_val f o false tk) (enc_val f o false tv)) l = Err ETooLong ->
+                        existsb (fun kv => has_overlong f o tk (fst kv) || has_overlong f o tv (snd kv)) l = true).
+  { intros tk tv l H. apply enc_all_toolong in H as (a & Hin & Ha). apply existsb_exists. exists a. split; [exact Hin|].
+    unfold enc_pair in Ha. apply bind_err in Ha as [Ha|(x & Hx & Ha)]; [rewrite (IH _ _ _ Ha); reflexivity|].
+    apply bind_err in Ha as [Ha|(y & Hy & Ha)]; [|discriminate]. rewrite (IH _ _ _ Ha). apply orb_true_r. }
+  destruct t as [p| |t'|n t'|tk tv|name].
+  - destruct (et && is_errnil v); [discriminate|].
+    apply bind_err in He as [He|(b & Hb & He)]; [|discriminate]. eapply rejects_only_overlong; eauto.
+  - destruct et; [discriminate|]. destruct v; try discriminate He.
+    destruct t; try discriminate He; destruct (ty_enc_ok o _); try discriminate He; eapply IH; eauto.
+  - destruct v; try discriminate He.
+    apply bind_err in He as [He|(b & Hb & He)]; [|discriminate]. now apply LST.
+  - destruct v; try discriminate He. destruct (vlen l =? n); [|discriminate].
+    apply bind_err in He as [He|(b & Hb & He)]; [|discriminate]. now apply LST.
+  - destruct v; try discriminate He.
+    apply bind_err in He as [He|(b & Hb & He)]; [|discriminate]. now apply MP.
+  - destruct (lookup_reg o name) as [d|]; [|discriminate]. destruct d as [p|fs|t'|n t'|tk tv].
+    + destruct (regable p); [|discriminate].
+      apply bind_err in He as [He|(b & Hb & He)]; [|discriminate]. eapply rejects_only_overlong; eauto.
+    + destruct v; try discriminate He.
+      apply bind_err in He as [He|(b & Hb & He)]; [|discriminate].
+      eapply enc_fields_toolong; [|exact He]. intros t0 v0 H0. eapply IH; eauto.
+    + destruct v; try discriminate He.
+      apply bind_err in He as [He|(b & Hb & He)]; [|discriminate]. now apply LST.
+    + destruct v; try discriminate He. destruct (vlen l =? n); [|discriminate].
+      apply bind_err in He as [He|(b & Hb & He)]; [|discriminate]. now apply LST.
+    + destruct v; try discriminate He.
+      apply bind_err in He as [He|(b & Hb & He)]; [|discriminate]. now apply MP.
+Qed.
+
+Theorem rejects_unrepresentable o t v :
+  encode o t v = Err ETooLong -> has_overlong (o_fuel o) o t v = true.
+Proof.
+  unfold encode. destruct (ty_enc_ok o t); [|discriminate]. intros H.
+  apply bind_err in H as [H|(b & Hb & H)]; [|discriminate]. eapply rejects_only_overlong_val; eauto.
+Qed.
+
 (* ---- the unrepaired length checks (history: fixed by 622a4d5 / f56c5c2) ---------------------------- *)
 (* decodeString computed 2+l in uint16: a string of 65534 or 65535 bytes was rejected by the decoder *)
 Lemma string_wrap_before_fix s r : blen s = 65534 \/ blen s = 65535 -> get_lp 2 16 (put_lp 2 s ++ r) = Err EData.
